@@ -728,7 +728,12 @@ class Bf3File:
                 "This is a legacy firmware that does not support BF3 upload"
             )
         sort_cmps = sorted(components, key=lambda c: c.description[BF3TAG.TYPE])
-        comments.update(cls.annotations(sort_cmps))
+        try:
+            comments.update(cls.annotations(sort_cmps))
+        except KeyError:
+            raise Bf3FileFormatError(
+                "BF2 file lacks the instruction that describes a component"
+            )
         return cls(comments, sort_cmps)
 
     def _get_config_ndx(self) -> int:
